@@ -1,11 +1,19 @@
 package checks
 
 import (
+	"bufio"
 	"bytes"
+	"encoding/json"
 	"fmt"
 	"io"
+	"os"
+	"os/exec"
 	"runtime/debug"
+	"strconv"
+	"strings"
+	"syscall"
 	"testing/iotest"
+	"time"
 
 	"verif/mc/core"
 )
@@ -22,13 +30,114 @@ func init() {
 		run(c)
 		c15ReaderKinds(c)
 	}
+	workers["c15readers"] = c15ReadersWorker
 }
 
+// c15ReaderKinds runs the sub-check in a worker process with an address-space cap, like every other
+// decode of this property: a decoder that loops or allocates without bound must end the worker, not
+// the check.  An aborted or stalled worker is re-run with per-case progress to name the prefix at
+// which it died; that is a violation, and the enumeration continues with that case skipped.
 func c15ReaderKinds(c *core.Ctx) {
 	sub := "reader-kinds"
 	if c.OnlySub != "" && c.OnlySub != sub {
 		return
 	}
+	var skip []string
+	for attempt := 0; attempt < 12; attempt++ {
+		d, cur, why := c15RunReadersWorker(c.Tier, strings.Join(skip, ","), false)
+		if d != nil {
+			c.Import(d)
+			return
+		}
+		// name the culprit
+		_, cur, why = c15RunReadersWorker(c.Tier, strings.Join(skip, ","), true)
+		if cur == "" {
+			panic(core.HarnessError("C15 reader-kinds worker failed without naming a case: " + why))
+		}
+		kind := "process-abort"
+		if strings.Contains(why, "watchdog") {
+			kind = "no-termination"
+		}
+		f := strings.Fields(cur) // C15RK <entry index> <prefix bytes> <reader kind> <decoder> <entry name...>
+		desc := "a decoder reading a truncated encoding through a reader ends the process or does not terminate"
+		if len(f) >= 5 {
+			desc = fmt.Sprintf("%s.Decode of a truncated encoding ends the process (unbounded allocation / fatal error) or does not terminate", f[4])
+		}
+		c.Violate(sub, kind, desc, nil, map[string]any{"case": cur, "worker": why})
+		if len(f) >= 3 {
+			skip = append(skip, f[1]+":"+f[2])
+		} else {
+			break
+		}
+	}
+	c.CapHit("reader-kinds: more than 12 aborting cases; the remaining prefixes were not enumerated")
+}
+
+func c15RunReadersWorker(tier, skip string, slow bool) (*core.CtxDump, string, string) {
+	exe, _ := os.Executable()
+	cmd := exec.Command(exe, "worker", "c15readers", tier, skip)
+	cmd.Env = os.Environ()
+	if slow {
+		cmd.Env = append(cmd.Env, "C15_SLOW=1")
+	}
+	var so bytes.Buffer
+	cmd.Stdout = &so
+	se := &lastLines{}
+	cmd.Stderr = se
+	if err := cmd.Start(); err != nil {
+		return nil, "", "cannot start worker: " + err.Error()
+	}
+	done := make(chan error, 1)
+	go func() { done <- cmd.Wait() }()
+	var err error
+	stalled := false
+	select {
+	case err = <-done:
+	case <-time.After(15 * time.Minute):
+		cmd.Process.Kill()
+		err = <-done
+		stalled = true
+	}
+	for _, line := range strings.Split(so.String(), "\n") {
+		if strings.HasPrefix(line, "C15RKOUT ") {
+			var d core.CtxDump
+			if json.Unmarshal([]byte(line[9:]), &d) == nil {
+				return &d, "", ""
+			}
+		}
+	}
+	cur, fatal := se.summary()
+	why := fmt.Sprintf("process aborted (%v): %s", err, fatal)
+	if stalled {
+		why = "no termination within the 15 min watchdog"
+	}
+	return nil, cur, why
+}
+
+// c15ReadersWorker: vcheck worker c15readers <tier> <skip: ei:cut,...>
+func c15ReadersWorker(args []string) int {
+	if len(args) < 2 {
+		return 2
+	}
+	debug.SetGCPercent(50)
+	lim := syscall.Rlimit{Cur: 3 << 30, Max: 3 << 30} // prefixes of valid encodings never declare giant counts
+	syscall.Setrlimit(syscall.RLIMIT_AS, &lim)
+	c := core.NewCtx("C15", args[0], "fault_enumeration", 0)
+	skip := map[string]bool{}
+	for _, f := range strings.Split(args[1], ",") {
+		if f != "" {
+			skip[f] = true
+		}
+	}
+	c15ReaderKindsBody(c, skip, os.Getenv("C15_SLOW") != "")
+	b, _ := json.Marshal(c.Export())
+	fmt.Println("C15RKOUT " + string(b))
+	return 0
+}
+
+func c15ReaderKindsBody(c *core.Ctx, skip map[string]bool, slow bool) {
+	sub := "reader-kinds"
+	progress := bufio.NewWriter(os.Stderr)
 	kinds := []struct {
 		name string
 		mk   func(b []byte) io.Reader
@@ -59,12 +168,26 @@ func c15ReaderKinds(c *core.Ctx) {
 				cut = len(e.Data) // always include the full encoding
 			}
 			data := e.Data[:cut]
+			if skip[strconv.Itoa(ei)+":"+strconv.Itoa(cut)] {
+				if cut == len(e.Data) {
+					break
+				}
+				continue
+			}
+			if slow {
+				fmt.Fprintf(progress, "C15RK %d %d -1 %s %s\n", ei, cut, e.Kind, e.Name)
+				progress.Flush()
+			}
 			c15MkReader = func(b []byte) io.Reader { return bytes.NewReader(b) }
 			refErr, _ := c15Safe(run, data)
 			for ki, kd := range kinds {
 				cas := []int{ei, cut, ki}
 				if c.Skip(sub, cas...) {
 					continue
+				}
+				if slow {
+					fmt.Fprintf(progress, "C15RK %d %d %d %s %s\n", ei, cut, ki, e.Kind, e.Name)
+					progress.Flush()
 				}
 				c15MkReader = kd.mk
 				decodes++
